@@ -6,9 +6,17 @@
    _should_generate_support, the argparse rejection rule, the namespace-type decision, SupportGenerator.get_templates and the
    dry-run guards of the leaf functions.  What the generators enumerate is hand-modelled and tied by correspondence. *)
 From Coq Require Import List Bool.
-From Verif Require Import Str Listing ListingThm Gen_Listing ListingInst.
+From Verif Require Import Str Listing ListingThm Gen_Listing ListingInst Gen_Pin_c08_enum.
 Import ListNotations.
 Open Scope N_scope.
+
+(* (0) Tie of the hand-modelled enumeration (listed_templates, chain, resolve_name, support_resources in Gen/Listing.v) to the
+   source: the shape pin regenerates Gen_Pin_c08_enum.v from /repo on every run; `pin_c08_enum_ok` is only defined while the
+   normalised AST of DSDLTemplateLoader.__init__/get_source/get_templates/_filter_template_list_by_suffix,
+   CodeGenerator.get_templates, SupportGenerator.get_templates/_get_templates_by_support_type, Language.get_support_files and
+   iter_package_resources is the one the model was written for. *)
+Example C08_enumeration_shape_pinned : pin_c08_enum_ok = true.
+Proof. reflexivity. Qed.
 
 (* (1) For ALL configurations (language data, flags, overrides, template directories), ALL input sets and ALL file systems:
    if the real run (same options, no listing/dry-run flag) succeeds from an empty output tree, then --list-outputs with the same
@@ -63,6 +71,26 @@ Theorem C08_list_inputs_support_override_refuted :
     /\ path_in x (influence_set the_code c i) = true /\ path_in x (listed c i) = false.
 Proof. exists (w_cfg SAsNeeded false None (Some w_sup_dir)), w_inputs_plain, [[100]; [115]]. exact list_inputs_support_override_refuted_w. Qed.
 Print Assumptions C08_list_inputs_support_override_refuted.
+
+(* (3b) What --list-inputs prints for the type generator is the set of PATHS of the files with the template suffix that its
+   loader chain can serve (not names: the same basename in two directories gives two entries); for the support generator the
+   paths of the packaged resources SupportGenerator.get_templates enumerates. *)
+Theorem C08_listed_templates_are_servable_paths :
+  forall (c : cfg) (o : bool) (p : list (list N)),
+  In p (listed_templates the_code c GTypes o) <-> exists d f, In d (chain c GTypes) /\ In f d /\ tf_j2 f = true /\ tf_path f = p.
+Proof. exact (listed_templates_servable_gen the_code). Qed.
+Print Assumptions C08_listed_templates_are_servable_paths.
+
+Theorem C08_listed_support_templates_are_resource_paths :
+  forall (c : cfg) (o : bool) (p : list (list N)),
+  In p (listed_templates the_code c GSupport o) <-> exists r, In r (support_resources the_code c o) /\ sr_path r = p.
+Proof. exact (listed_support_resources_gen the_code). Qed.
+Print Assumptions C08_listed_support_templates_are_resource_paths.
+
+Example C08_same_basename_both_listed :
+  let c := w_cfg SNever false (Some w_nested_dir) None in
+  path_in [[112]; [109]; [98]] (listed c w_inputs_plain) = true /\ path_in [[112]; [115]; [98]] (listed c w_inputs_plain) = true.
+Proof. exact example_same_basename_both_listed. Qed.
 
 (* (4) The option combination argparse refuses (--omit-serialization-support with --generate-support always) does nothing. *)
 Theorem C08_rejected_does_nothing :
